@@ -153,7 +153,13 @@ func (l *loginInboundConn) handleLoginPluginResponse(res *packet.LoginPluginResp
 	verifhook.Point("lp.resp.consumed", "id", res.ID)
 	l.mu.Lock()
 	done := len(l.outstandingResponses) == 0
-	onAllMessagesHandled := l.onAllMessagesHandled
+	var onAllMessagesHandled func() error
+	if done {
+		// Take the callback: the login must complete only once, also when a
+		// message sent after the completion is answered later on.
+		onAllMessagesHandled = l.onAllMessagesHandled
+		l.onAllMessagesHandled = nil
+	}
 	l.mu.Unlock()
 	verifhook.Point("lp.resp.checked", "id", res.ID, "done", done, "armed", onAllMessagesHandled != nil)
 	if done && onAllMessagesHandled != nil {
@@ -166,10 +172,14 @@ func (l *loginInboundConn) loginEventFired(onAllMessagesHandled func() error) er
 	verifhook.Point("lp.fired.enter")
 	l.mu.Lock()
 	l.isLoginEventFired = true
-	l.onAllMessagesHandled = onAllMessagesHandled
 	msgs := make([]*packet.LoginPluginMessage, 0, l.loginMessagesToSend.Len())
 	for l.loginMessagesToSend.Len() != 0 {
 		msgs = append(msgs, l.loginMessagesToSend.PopFront())
+	}
+	if len(msgs) != 0 {
+		// Completion is deferred until the queued messages were answered.
+		// Otherwise it runs right below and must not stay armed.
+		l.onAllMessagesHandled = onAllMessagesHandled
 	}
 	l.mu.Unlock()
 	verifhook.Point("lp.fired.popped", "n", len(msgs))
